@@ -945,15 +945,17 @@ pub fn oracle_c07(scn: &E1Scn, d: &Digest, out: &RunOut, stats: &mut Stats) -> V
         // ... "running" as the job sees it: the end of a process counts from the instant the job task collected
         // it (a stalled job task may observe an exit late); an exit before the watchdog that is never collected at all
         // is not excused
+        // (the bare NextEnding variant sent by hand travels at normal priority: every grace period ahead of it holds it back)
+        let held_back: u64 = if st.op == Op::RawNextEnding { all_ops(scn).iter().filter_map(|o| o.3.op.graceful().map(|g| g.1)).fold(0u64, |a, g| a.saturating_add(g)) } else { 0 };
         let still_running = d.children.iter().any(|c| {
-            c.spawn_t <= sent + busy_bound(scn)
+            c.spawn_t <= sent.saturating_add(busy_bound(scn)).saturating_add(held_back)
                 && match (c.exit, c.reaped) {
                     (_, Some(r)) => r.0 >= *h,
                     (Some(e), None) => e.0 >= *h,
                     (None, None) => true,
                 }
         });
-        if st.op == Op::ToWait && still_running {
+        if st.op.waits_for_end() && still_running {
             // legitimately pending: a process is still running when the run ends
             stats.hit("probe:to-wait-on-immortal-child");
             continue;
@@ -980,7 +982,7 @@ pub fn oracle_c07(scn: &E1Scn, d: &Digest, out: &RunOut, stats: &mut Stats) -> V
     }
     // (a'') a job whose handles have all been dropped ends (after draining its queue) - whoever still holds tickets
     let endless_grace = all_ops(scn).iter().any(|o| o.3.op.graceful().map(|g| g.1 >= HOUR_MS).unwrap_or(false));
-    let stalled_forever = d.hung.iter().any(|h| scn.op(h.0).op != Op::ToWait);
+    let stalled_forever = d.hung.iter().any(|h| !scn.op(h.0).op.waits_for_end());
     if scn.drop_handles && d.task_end.is_none() && !endless_grace && !stalled_forever && d.run_end > 0 {
         vs.push(Violation::new("job-survives-its-last-handle", "", "every Job handle was dropped, yet the job task was still running two (virtual) hours later".into()));
     }
@@ -1084,7 +1086,7 @@ pub fn oracle_c07(scn: &E1Scn, d: &Digest, out: &RunOut, stats: &mut Stats) -> V
                     } else if let (Some(te), Some(snd)) = (task_end, d.send.get(&id)) {
                         // ... and ended because it was told to (delete, delete_now) or panicked: a job whose last handle
                         // is dropped stops only once its queue is drained, so a control queued before that still runs
-                        let told = all_ops(scn).iter().any(|o| matches!(o.3.op, Op::Delete | Op::DeleteNow) && d.send.get(&o.0).map(|x| x.1 < te.1).unwrap_or(false));
+                        let told = all_ops(scn).iter().any(|o| o.3.op.deletes() && d.send.get(&o.0).map(|x| x.1 < te.1).unwrap_or(false));
                         if !told && !te.2 && snd.1 < te.1 {
                             vs.push(Violation::new(
                                 "queued-control-dropped-at-job-end",
@@ -1255,7 +1257,7 @@ pub fn oracle_c10(scn: &E1Scn, d: &Digest, stats: &mut Stats) -> Vec<Violation> 
     // ... and, on a job that nobody deleted, exactly once: a job whose handles are all dropped stops only after its
     // queue is drained (also while a grace period holds the normal queue back)
     if let Some(te) = d.task_end {
-        let told = all_ops(scn).iter().any(|o| matches!(o.3.op, Op::Delete | Op::DeleteNow) && d.send.get(&o.0).map(|x| x.1 < te.1).unwrap_or(false));
+        let told = all_ops(scn).iter().any(|o| o.3.op.deletes() && d.send.get(&o.0).map(|x| x.1 < te.1).unwrap_or(false));
         if !told && !te.2 {
             if scn.drop_handles {
                 stats.hit("probe:job-ended-by-dropping-its-handles");
